@@ -1634,6 +1634,9 @@ class FortranFile:
 
                         # Check if the "variable" is external and if so cycle
                         if find_external(file_ast, desc, name, new_var):
+                            # The statement completes an earlier declaration, the
+                            # documentation around it belongs to that entity
+                            file_ast.merged_variable(name, line_no)
                             continue
 
                     # if not merge_external:
@@ -2109,7 +2112,8 @@ class FortranFile:
                 # executable statement) documents nothing
                 last_obj = file_ast.last_obj
                 if docs_line is None or (
-                    last_obj is not None and last_obj.sline == docs_line
+                    last_obj is not None
+                    and docs_line in (last_obj.sline, file_ast.merged_line)
                 ):
                     file_ast.add_doc(format(docs))
                     log.debug("%s !!! Doc string - Line:%d", format(docs), ln)
